@@ -125,6 +125,9 @@ void UncompressedFile::write(const char * s, std::streamsize n) {
                 logContainer->filePosition =
                     m_data.back()->uncompressedFileSize +
                     m_data.back()->filePosition;
+            } else {
+                /* everything before the put position has been consumed and dropped */
+                logContainer->filePosition = m_tellp;
             }
             m_data.push_back(logContainer);
         }
